@@ -271,5 +271,6 @@ pub fn parts() -> Vec<Box<dyn PartDyn>> {
         enumerate: Some(enumerate),
         shrink_budget: 200,
         confirm_runs: 2,
+            fuzz: None,
     })]
 }
